@@ -1,1 +1,352 @@
-From MiniMcmc Require Import Model.DualAvg.
+(* C04 — During the first n_discard transitions of a run the NUTS step size follows Nesterov dual
+   averaging toward the requested acceptance statistic (gamma 0.05, t0 10, kappa 0.75, shrinkage
+   point ln(10*eps0)), driven by each transition's acceptance statistic; after warm-up it equals
+   the averaged iterate and never changes again.  The step size is positive and finite throughout.
+   Model: Model/DualAvg.v (da_step = tail of NUTSChain::step, da_init = init_chain, da_run = one
+   run(); find_loop / find_eps = find_reasonable_epsilon), generic over the number record TNum.
+   All statements below are about the real-number instance tnumR (tadd = Rplus, tsub = Rminus,
+   tmul = Rmult, tdiv = Rdiv, tofZ = IZR, texp = exp, tln = ln, tsqrt = sqrt), except
+   C04_interval_sound* which relate the interval instance tnumI (Interval, 80 bits; the Coq-side
+   evaluation of the correspondence check) to tnumR.
+   `nd` = warm-up length (n_discard of the current run); `da_m` = number of adaptation updates
+   so far (persists across runs); `a` = acceptance statistic alpha / n_alpha of the transition
+   just performed.  m^(-kappa) is written exp (- kappa * ln m). *)
+From MiniMcmc Require Import Model.DualAvg Proofs.DualAvg.
+From Coq Require Import Reals List.
+From Interval Require Import Interval Xreal.
+Open Scope R_scope.
+
+Section C04.
+  Variables delta gamma kappa : R.       (* target acceptance, 0.05, 0.75 *)
+  Variable t0 : nat.                     (* 10 *)
+
+  (* ---- (1) warm-up: one Nesterov dual-averaging update, m = S (da_m st) <= nd ---- *)
+  Theorem C04_warmup_closed_form : forall (nd : nat) (st : dastate tnumR) (a : R),
+    let m := S (da_m tnumR st) in
+    (m <= nd)%nat ->
+    let st' := da_step tnumR delta gamma kappa t0 nd st a in
+    da_h_bar tnumR st'
+      = (1 - 1 / INR (m + t0)) * da_h_bar tnumR st + 1 / INR (m + t0) * (delta - a) /\
+    ln (da_eps tnumR st') = da_mu tnumR st - sqrt (INR m) / gamma * da_h_bar tnumR st' /\
+    ln (da_eps_bar tnumR st')
+      = (1 - exp (- kappa * ln (INR m))) * ln (da_eps_bar tnumR st)
+        + exp (- kappa * ln (INR m)) * ln (da_eps tnumR st') /\
+    da_m tnumR st' = m /\ da_mu tnumR st' = da_mu tnumR st.
+  Proof. exact (da_warmup_closed_form delta gamma kappa t0). Qed.
+
+  (* the same update without logarithms on the left (m^(-kappa) as Rpower) *)
+  Theorem C04_warmup_exp_form : forall (nd : nat) (st : dastate tnumR) (a : R),
+    let m := S (da_m tnumR st) in
+    (m <= nd)%nat ->
+    let st' := da_step tnumR delta gamma kappa t0 nd st a in
+    da_eps tnumR st' = exp (da_mu tnumR st - sqrt (INR m) / gamma * da_h_bar tnumR st') /\
+    da_eps_bar tnumR st'
+      = exp ((1 - Rpower (INR m) (- kappa)) * ln (da_eps_bar tnumR st)
+             + Rpower (INR m) (- kappa) * ln (da_eps tnumR st')).
+  Proof. exact (da_warmup_exp_form delta gamma kappa t0). Qed.
+
+  (* the averaged-error recursion is applied at every transition, warm-up or not *)
+  Theorem C04_hbar_update : forall (nd : nat) (st : dastate tnumR) (a : R),
+    da_h_bar tnumR (da_step tnumR delta gamma kappa t0 nd st a)
+    = (1 - 1 / INR (S (da_m tnumR st) + t0)) * da_h_bar tnumR st
+      + 1 / INR (S (da_m tnumR st) + t0) * (delta - a).
+  Proof. exact (da_hbar_update delta gamma kappa t0). Qed.
+
+  (* ---- (2) after warm-up: the step size is the averaged iterate and never changes again ---- *)
+  Theorem C04_frozen_step : forall (nd : nat) (st : dastate tnumR) (a : R),
+    (nd < S (da_m tnumR st))%nat ->
+    let st' := da_step tnumR delta gamma kappa t0 nd st a in
+    da_eps tnumR st' = da_eps_bar tnumR st /\ da_eps_bar tnumR st' = da_eps_bar tnumR st /\
+    da_m tnumR st' = S (da_m tnumR st).
+  Proof. exact (da_frozen_step delta gamma kappa t0). Qed.
+
+  (* whatever the later acceptance statistics *)
+  Theorem C04_frozen : forall (nd : nat) (accs : list R) (st : dastate tnumR),
+    (nd <= da_m tnumR st)%nat ->
+    let st' := fold_left (da_step tnumR delta gamma kappa t0 nd) accs st in
+    da_eps_bar tnumR st' = da_eps_bar tnumR st /\
+    (accs <> nil -> da_eps tnumR st' = da_eps_bar tnumR st) /\
+    da_m tnumR st' = (da_m tnumR st + length accs)%nat.
+  Proof. exact (da_frozen delta gamma kappa t0). Qed.
+
+  (* the update counter after any sequence of transitions *)
+  Theorem C04_counter : forall (nd : nat) (accs : list R) (st : dastate tnumR),
+    da_m tnumR (fold_left (da_step tnumR delta gamma kappa t0 nd) accs st)
+    = (da_m tnumR st + length accs)%nat.
+  Proof. exact (fold_m delta gamma kappa t0). Qed.
+
+  (* a later run on the state left by an earlier one: init_chain only recomputes mu *)
+  Theorem C04_across_runs_init : forall st : dastate tnumR,
+    let st0 := da_init tnumR st in
+    da_m tnumR st0 = da_m tnumR st /\ da_eps tnumR st0 = da_eps tnumR st /\
+    da_eps_bar tnumR st0 = da_eps_bar tnumR st /\ da_h_bar tnumR st0 = da_h_bar tnumR st /\
+    da_mu tnumR st0 = ln (10 * da_eps tnumR st).
+  Proof. exact da_init_keeps. Qed.
+
+  (* ... if its warm-up length nd' does not exceed the persisted counter, nothing is adapted *)
+  Theorem C04_across_runs_frozen : forall (nd' : nat) (st : dastate tnumR) (accs : list R),
+    (nd' <= da_m tnumR st)%nat ->
+    let st' := da_run tnumR delta gamma kappa t0 nd' st accs in
+    da_eps_bar tnumR st' = da_eps_bar tnumR st /\
+    (accs <> nil -> da_eps tnumR st' = da_eps_bar tnumR st) /\
+    da_m tnumR st' = (da_m tnumR st + length accs)%nat.
+  Proof. exact (da_run_no_adapt delta gamma kappa t0). Qed.
+
+  (* ... otherwise its first transition is again a warm-up update, with mu = ln (10 * eps) *)
+  Theorem C04_across_runs_warm : forall (nd' : nat) (st : dastate tnumR) (a : R) (accs : list R),
+    (da_m tnumR st < nd')%nat ->
+    let m := S (da_m tnumR st) in
+    let st1 := da_step tnumR delta gamma kappa t0 nd' (da_init tnumR st) a in
+    da_run tnumR delta gamma kappa t0 nd' st (a :: accs)
+      = fold_left (da_step tnumR delta gamma kappa t0 nd') accs st1 /\
+    da_h_bar tnumR st1
+      = (1 - 1 / INR (m + t0)) * da_h_bar tnumR st + 1 / INR (m + t0) * (delta - a) /\
+    ln (da_eps tnumR st1) = ln (10 * da_eps tnumR st) - sqrt (INR m) / gamma * da_h_bar tnumR st1 /\
+    ln (da_eps_bar tnumR st1)
+      = (1 - exp (- kappa * ln (INR m))) * ln (da_eps_bar tnumR st)
+        + exp (- kappa * ln (INR m)) * ln (da_eps tnumR st1) /\
+    da_m tnumR st1 = m /\ da_mu tnumR st1 = ln (10 * da_eps tnumR st).
+  Proof. exact (da_run_first_warm delta gamma kappa t0). Qed.
+
+  (* ---- (3) positivity, for every acceptance statistic and every warm-up length ---- *)
+  Theorem C04_positive_step : forall (nd : nat) (st : dastate tnumR) (a : R),
+    0 < da_eps_bar tnumR st ->
+    0 < da_eps tnumR (da_step tnumR delta gamma kappa t0 nd st a) /\
+    0 < da_eps_bar tnumR (da_step tnumR delta gamma kappa t0 nd st a).
+  Proof. exact (da_positive_step delta gamma kappa t0). Qed.
+
+  Theorem C04_positive : forall (nd : nat) (accs : list R) (st : dastate tnumR),
+    0 < da_eps_bar tnumR st ->
+    0 < da_eps_bar tnumR (fold_left (da_step tnumR delta gamma kappa t0 nd) accs st) /\
+    (accs <> nil -> 0 < da_eps tnumR (fold_left (da_step tnumR delta gamma kappa t0 nd) accs st)).
+  Proof. exact (da_positive delta gamma kappa t0). Qed.
+
+  (* the chain is created with eps_bar = 1 *)
+  Theorem C04_positive_from_one : forall (nd : nat) (accs : list R) (st : dastate tnumR),
+    da_eps_bar tnumR st = 1 ->
+    0 < da_eps_bar tnumR (fold_left (da_step tnumR delta gamma kappa t0 nd) accs st) /\
+    (accs <> nil -> 0 < da_eps tnumR (fold_left (da_step tnumR delta gamma kappa t0 nd) accs st)).
+  Proof. exact (da_positive_from_one delta gamma kappa t0). Qed.
+
+  (* a whole run (init_chain, then any transitions, possibly none) keeps eps and eps_bar positive *)
+  Theorem C04_positive_run : forall (nd : nat) (accs : list R) (st : dastate tnumR),
+    0 < da_eps tnumR st -> 0 < da_eps_bar tnumR st ->
+    let st' := da_run tnumR delta gamma kappa t0 nd st accs in
+    0 < da_eps tnumR st' /\ 0 < da_eps_bar tnumR st'.
+  Proof. exact (da_positive_run delta gamma kappa t0). Qed.
+
+  (* ---- (4) finiteness: explicit bounds ---- *)
+  (* the averaged error stays in [delta - 1, delta] when the statistics are in [0, 1] *)
+  Theorem C04_hbar_bounds_step : forall (nd : nat) (st : dastate tnumR) (a : R),
+    delta - 1 <= da_h_bar tnumR st <= delta -> 0 <= a <= 1 ->
+    delta - 1 <= da_h_bar tnumR (da_step tnumR delta gamma kappa t0 nd st a) <= delta.
+  Proof. exact (da_hbar_bounds_step delta gamma kappa t0). Qed.
+
+  Theorem C04_hbar_bounds : forall (nd : nat) (accs : list R) (st : dastate tnumR),
+    delta - 1 <= da_h_bar tnumR st <= delta -> (forall a, In a accs -> 0 <= a <= 1) ->
+    delta - 1 <= da_h_bar tnumR (fold_left (da_step tnumR delta gamma kappa t0 nd) accs st) <= delta.
+  Proof. exact (da_hbar_bounds delta gamma kappa t0). Qed.
+
+  (* the chain is created with h_bar = 0 *)
+  Theorem C04_hbar_bounds_from_zero : forall (nd : nat) (accs : list R) (st : dastate tnumR),
+    0 <= delta <= 1 -> da_h_bar tnumR st = 0 -> (forall a, In a accs -> 0 <= a <= 1) ->
+    delta - 1 <= da_h_bar tnumR (fold_left (da_step tnumR delta gamma kappa t0 nd) accs st) <= delta.
+  Proof. exact (da_hbar_bounds_from_zero delta gamma kappa t0). Qed.
+
+  (* init_chain does not touch h_bar, so the bounds carry over whole runs *)
+  Theorem C04_hbar_bounds_run : forall (nd : nat) (accs : list R) (st : dastate tnumR),
+    delta - 1 <= da_h_bar tnumR st <= delta -> (forall a, In a accs -> 0 <= a <= 1) ->
+    delta - 1 <= da_h_bar tnumR (da_run tnumR delta gamma kappa t0 nd st accs) <= delta.
+  Proof. exact (da_hbar_bounds_run delta gamma kappa t0). Qed.
+
+  (* explicit finite positive bounds on the step size during warm-up *)
+  Theorem C04_eps_bounds : forall (nd : nat) (st : dastate tnumR) (a : R),
+    let m := S (da_m tnumR st) in
+    delta - 1 <= da_h_bar tnumR st <= delta -> 0 <= a <= 1 -> 0 < gamma -> (m <= nd)%nat ->
+    exp (da_mu tnumR st - sqrt (INR m) / gamma * delta)
+      <= da_eps tnumR (da_step tnumR delta gamma kappa t0 nd st a)
+      <= exp (da_mu tnumR st + sqrt (INR m) / gamma * (1 - delta)).
+  Proof. exact (da_eps_bounds delta gamma kappa t0). Qed.
+End C04.
+
+(* ---- (5) find_reasonable_epsilon over an arbitrary log-acceptance oracle lap ---- *)
+Section C04_find_eps.
+  Variable lap : R -> R.
+
+  (* the returned step size is the FIRST point eps * (2^a)^k of the geometric grid where the loop
+     condition  -a ln 2 < a * lap(.)  fails; k is below the fuel *)
+  Theorem C04_find_eps_post : forall (fuel : nat) (a eps e' : R),
+    find_loop lap fuel a eps = Some e' ->
+    exists k : nat, (k < fuel)%nat /\
+      e' = eps * (Rpower 2 a) ^ k /\
+      ~ (- a * ln 2 < a * lap e') /\
+      (forall i : nat, (i < k)%nat -> - a * ln 2 < a * lap (eps * (Rpower 2 a) ^ i)).
+  Proof. exact (find_loop_post lap). Qed.
+
+  (* conversely, the first failing grid point is what the loop returns, given fuel > k *)
+  Theorem C04_find_eps_complete : forall (k fuel : nat) (a eps : R),
+    (k < fuel)%nat ->
+    ~ (- a * ln 2 < a * lap (eps * (Rpower 2 a) ^ k)) ->
+    (forall i : nat, (i < k)%nat -> - a * ln 2 < a * lap (eps * (Rpower 2 a) ^ i)) ->
+    find_loop lap fuel a eps = Some (eps * (Rpower 2 a) ^ k).
+  Proof. exact (find_loop_complete lap). Qed.
+
+  (* from 1/2: doubling while the acceptance probability exceeds 1/2 (direction 1), halving while
+     it is below 1/2 (direction -1); the result is the first grid point across 1/2 *)
+  Theorem C04_find_eps_direction : forall (fuel : nat) (e' : R),
+    find_eps lap fuel = Some e' ->
+    (direction lap (1 / 2) = 1 /\ ln (1 / 2) < lap (1 / 2) /\
+     exists k : nat, (k < fuel)%nat /\ e' = 1 / 2 * 2 ^ k /\
+       lap e' <= ln (1 / 2) /\
+       (forall i : nat, (i < k)%nat -> ln (1 / 2) < lap (1 / 2 * 2 ^ i)))
+    \/
+    (direction lap (1 / 2) = -1 /\ lap (1 / 2) <= ln (1 / 2) /\
+     exists k : nat, (k < fuel)%nat /\ e' = 1 / 2 * (1 / 2) ^ k /\
+       ln (1 / 2) <= lap e' /\
+       (forall i : nat, (i < k)%nat -> lap (1 / 2 * (1 / 2) ^ i) < ln (1 / 2))).
+  Proof. exact (find_eps_post lap). Qed.
+End C04_find_eps.
+
+(* ---- (6) the interval evaluation (tnumI) encloses the real model (tnumR) ---- *)
+(* if every interval argument contains the corresponding real argument then every component of
+   the interval step contains the corresponding component of the real step (an interval whose
+   conversion is Inan contains everything, by definition of `contains`) *)
+Theorem C04_interval_sound :
+  forall (deltai gammai kappai : I.type) (delta gamma kappa : R) (t0 nd : nat)
+         (si : dastate tnumI) (sr : dastate tnumR) (ai : I.type) (a : R),
+  contains (I.convert deltai) (Xreal delta) -> contains (I.convert gammai) (Xreal gamma) ->
+  contains (I.convert kappai) (Xreal kappa) -> contains (I.convert ai) (Xreal a) ->
+  da_m tnumI si = da_m tnumR sr /\
+  contains (I.convert (da_eps tnumI si)) (Xreal (da_eps tnumR sr)) /\
+  contains (I.convert (da_eps_bar tnumI si)) (Xreal (da_eps_bar tnumR sr)) /\
+  contains (I.convert (da_h_bar tnumI si)) (Xreal (da_h_bar tnumR sr)) /\
+  contains (I.convert (da_mu tnumI si)) (Xreal (da_mu tnumR sr)) ->
+  let si' := da_step tnumI deltai gammai kappai t0 nd si ai in
+  let sr' := da_step tnumR delta gamma kappa t0 nd sr a in
+  da_m tnumI si' = da_m tnumR sr' /\
+  contains (I.convert (da_eps tnumI si')) (Xreal (da_eps tnumR sr')) /\
+  contains (I.convert (da_eps_bar tnumI si')) (Xreal (da_eps_bar tnumR sr')) /\
+  contains (I.convert (da_h_bar tnumI si')) (Xreal (da_h_bar tnumR sr')) /\
+  contains (I.convert (da_mu tnumI si')) (Xreal (da_mu tnumR sr')).
+Proof. exact da_step_encl. Qed.
+
+(* the same for init_chain (mu := ln (10 * eps)) *)
+Theorem C04_interval_sound_init : forall (si : dastate tnumI) (sr : dastate tnumR),
+  da_m tnumI si = da_m tnumR sr /\
+  contains (I.convert (da_eps tnumI si)) (Xreal (da_eps tnumR sr)) /\
+  contains (I.convert (da_eps_bar tnumI si)) (Xreal (da_eps_bar tnumR sr)) /\
+  contains (I.convert (da_h_bar tnumI si)) (Xreal (da_h_bar tnumR sr)) /\
+  contains (I.convert (da_mu tnumI si)) (Xreal (da_mu tnumR sr)) ->
+  let si' := da_init tnumI si in
+  let sr' := da_init tnumR sr in
+  da_m tnumI si' = da_m tnumR sr' /\
+  contains (I.convert (da_eps tnumI si')) (Xreal (da_eps tnumR sr')) /\
+  contains (I.convert (da_eps_bar tnumI si')) (Xreal (da_eps_bar tnumR sr')) /\
+  contains (I.convert (da_h_bar tnumI si')) (Xreal (da_h_bar tnumR sr')) /\
+  contains (I.convert (da_mu tnumI si')) (Xreal (da_mu tnumR sr')).
+Proof. exact da_init_encl. Qed.
+
+(* and for a whole run over pairs (interval, real) of acceptance statistics *)
+Theorem C04_interval_sound_run :
+  forall (deltai gammai kappai : I.type) (delta gamma kappa : R) (t0 nd : nat)
+         (accs : list (I.type * R)) (si : dastate tnumI) (sr : dastate tnumR),
+  contains (I.convert deltai) (Xreal delta) -> contains (I.convert gammai) (Xreal gamma) ->
+  contains (I.convert kappai) (Xreal kappa) ->
+  (forall p, In p accs -> contains (I.convert (fst p)) (Xreal (snd p))) ->
+  da_m tnumI si = da_m tnumR sr /\
+  contains (I.convert (da_eps tnumI si)) (Xreal (da_eps tnumR sr)) /\
+  contains (I.convert (da_eps_bar tnumI si)) (Xreal (da_eps_bar tnumR sr)) /\
+  contains (I.convert (da_h_bar tnumI si)) (Xreal (da_h_bar tnumR sr)) /\
+  contains (I.convert (da_mu tnumI si)) (Xreal (da_mu tnumR sr)) ->
+  let si' := da_run tnumI deltai gammai kappai t0 nd si (map fst accs) in
+  let sr' := da_run tnumR delta gamma kappa t0 nd sr (map snd accs) in
+  da_m tnumI si' = da_m tnumR sr' /\
+  contains (I.convert (da_eps tnumI si')) (Xreal (da_eps tnumR sr')) /\
+  contains (I.convert (da_eps_bar tnumI si')) (Xreal (da_eps_bar tnumR sr')) /\
+  contains (I.convert (da_h_bar tnumI si')) (Xreal (da_h_bar tnumR sr')) /\
+  contains (I.convert (da_mu tnumI si')) (Xreal (da_mu tnumR sr')).
+Proof. exact da_run_encl. Qed.
+
+(* ---- non-vacuity ---- *)
+
+(* the freshly created chain (m = 0, eps = 1/2, eps_bar = 1, h_bar = 0, mu = ln (10 * 1/2)) with
+   delta = 4/5, gamma = 1/20, kappa = 3/4, t0 = 10, nd = 5 meets every hypothesis of (1), (3), (4);
+   with a = 1/2 the first update gives h_bar = 3/110 *)
+Example C04_hypotheses_satisfiable :
+  let delta := 4 / 5 in let gamma := 1 / 20 in let kappa := 3 / 4 in
+  let st := Build_dastate tnumR 0 (1 / 2) 1 0 (ln (10 * (1 / 2))) in
+  (S (da_m tnumR st) <= 5)%nat /\ 0 < da_eps tnumR st /\ 0 < da_eps_bar tnumR st /\
+  da_eps_bar tnumR st = 1 /\ da_h_bar tnumR st = 0 /\
+  delta - 1 <= da_h_bar tnumR st <= delta /\ 0 <= delta <= 1 /\ 0 < gamma /\ 0 <= 1 / 2 <= 1 /\
+  da_h_bar tnumR (da_step tnumR delta gamma kappa 10 5 st (1 / 2)) = 3 / 110.
+Proof.
+  cbv zeta. cbn [da_m da_eps da_eps_bar da_h_bar].
+  split; [repeat constructor|].
+  repeat (split; [Lra.lra|]).
+  rewrite C04_hbar_update. cbn. Lra.lra.
+Qed.
+
+(* a frozen state (m = 7 >= nd = 5): hypothesis of (2) *)
+Example C04_frozen_hypothesis_satisfiable :
+  let st := Build_dastate tnumR 7 (1 / 4) (1 / 4) 0 0 in
+  (5 <= da_m tnumR st)%nat /\
+  da_eps tnumR (da_step tnumR (4 / 5) (1 / 20) (3 / 4) 10 5 st (1 / 2)) = 1 / 4.
+Proof.
+  cbv zeta. split; [cbn; repeat constructor|].
+  pose proof (C04_frozen_step (4 / 5) (1 / 20) (3 / 4) 10 5
+                (Build_dastate tnumR 7 (1 / 4) (1 / 4) 0 0) (1 / 2)) as H.
+  cbv zeta in H. destruct H as [H _]; [cbn; repeat constructor | exact H].
+Qed.
+
+(* (5): acceptance probability exp(-eps): 1/2 is accepted with probability > 1/2, 1 is not *)
+Example C04_find_eps_example : find_eps (fun e => - e) 5 = Some 1.
+Proof.
+  assert (Hlo : / 2 < ln 2) by exact ln_lt_2.
+  assert (Hhi : ln 2 < 1).
+  { rewrite <- (ln_exp 1). apply ln_increasing; [Lra.lra|].
+    pose proof (exp_ineq1 1 ltac:(Lra.lra)). Lra.lra. }
+  assert (Hd : direction (fun e => - e) (1 / 2) = 1).
+  { unfold direction. rewrite ln_half.
+    destruct (Rlt_dec (- ln 2) (- (1 / 2))) as [H|H]; [reflexivity | exfalso; apply H; Lra.lra]. }
+  unfold find_eps. rewrite Hd.
+  rewrite (C04_find_eps_complete (fun e => - e) 1 5 1 (1 / 2)).
+  - f_equal. rewrite Rpower_2_1. simpl. Lra.lra.
+  - repeat constructor.
+  - rewrite Rpower_2_1. simpl. Lra.lra.
+  - intros i Hi. assert (i = 0%nat) as -> by Lia.lia. simpl. Lra.lra.
+Qed.
+
+(* interval evaluation on dyadic inputs (delta 13/16, gamma 13/256, kappa 3/4, nd 5, m 0,
+   eps 1/2, eps_bar 1, h_bar 0, mu 13/8, a 1/2): three enclosures, all six bounds finite and
+   positive (sign entry 1; a NaN bound would show 2) *)
+Example C04_interval_eval_finite :
+  let out := da_eval (idy 13 (-4)) (idy 13 (-8)) (idy 3 (-2)) 5 0
+                     (idy 1 (-1)) (idy 1 0) (idy 0 0) (idy 13 (-3)) (idy 1 (-1)) in
+  length out = 18%nat /\
+  map (fun i => nth i out 2%Z) [0; 3; 6; 9; 12; 15]%nat = [1; 1; 1; 1; 1; 1]%Z.
+Proof. vm_compute. split; reflexivity. Qed.
+
+Print Assumptions C04_warmup_closed_form.
+Print Assumptions C04_warmup_exp_form.
+Print Assumptions C04_hbar_update.
+Print Assumptions C04_frozen_step.
+Print Assumptions C04_frozen.
+Print Assumptions C04_counter.
+Print Assumptions C04_across_runs_init.
+Print Assumptions C04_across_runs_frozen.
+Print Assumptions C04_across_runs_warm.
+Print Assumptions C04_positive_step.
+Print Assumptions C04_positive.
+Print Assumptions C04_positive_from_one.
+Print Assumptions C04_positive_run.
+Print Assumptions C04_hbar_bounds_step.
+Print Assumptions C04_hbar_bounds.
+Print Assumptions C04_hbar_bounds_from_zero.
+Print Assumptions C04_hbar_bounds_run.
+Print Assumptions C04_eps_bounds.
+Print Assumptions C04_find_eps_post.
+Print Assumptions C04_find_eps_complete.
+Print Assumptions C04_find_eps_direction.
+Print Assumptions C04_interval_sound.
+Print Assumptions C04_interval_sound_init.
+Print Assumptions C04_interval_sound_run.
